@@ -725,6 +725,7 @@ impl Scenario for LedgerScn {
                 runs.push((format!("element decoder Err at element {k} under {:?}", lv), b.bytes.clone(), s, EF::ErrAt(k)));
             }
         }
+        let what_examples: Vec<String> = runs.iter().step_by((runs.len() / 6).max(1)).map(|r| r.0.clone()).take(8).collect();
         let only = if plan.has("fix_only_run") { Some(plan.param("fix_only_run") as usize) } else { None };
         let total = runs.len();
         for (i, (what, data, src, ef)) in runs.into_iter().enumerate() {
@@ -753,7 +754,9 @@ impl Scenario for LedgerScn {
             }
         }
         *st.exhaustive_parts.entry(if big { "fault_positions_sampled_in_big_instances" } else { "fault_positions_enumerated_completely" }.into()).or_insert(0) += total as u64;
-        st.sample(|| json!({"container": c.name, "N": n, "wire_len": b.bytes.len(), "elements": b.n_tr, "source": src0.describe(), "fault_positions_enumerated": total, "dry_run_calls": {"read": read_calls, "descend": descend_calls, "alloc_hook": alloc_calls, "all": all_calls, "io_read": io_calls}}));
+        if total >= 60 {
+            st.sample(|| json!({"container": c.name, "N": n, "wire_len": b.bytes.len(), "elements": b.n_tr, "source": src0.describe(), "fault_positions_enumerated": total, "dry_run_calls": {"read": read_calls, "descend": descend_calls, "alloc_hook": alloc_calls, "all": all_calls, "io_read": io_calls}, "example_positions": what_examples}));
+        }
         Ok(())
     }
 }
